@@ -129,7 +129,7 @@ Check(gr) ==
       amb == \E w \in Strs : Tc["S"][w] >= 2
       okFull == cfFull => \A w \in Strs : (Drive(R, F, Nl, FALSE, w \o <<Eof>>, <<I0>>, <<>>, 1, 60).res = "accept") <=> (w \in L["S"])
       okPre == cfPre => \A w \in Strs : (Drive(R, F, Nl, TRUE, w \o <<Eof>>, <<I0>>, <<>>, 1, 60).res = "accept") <=> (\E k \in 0..Len(w) : SubSeq(w, 1, k) \in L["S"])
-      okAmb == amb => ~cfFull
+      okAmb == amb => (~cfFull /\ ~cfPre)        \* prefix mode only adds lookaheads: an ambiguous grammar conflicts there too
       UsedT == UNION {{r.r[j] : j \in DOMAIN r.r} : r \in gr} \cap Term
       runs(pre) == {LET d == Drive(R, F, Nl, pre, w \o <<Eof>>, <<I0>>, <<>>, 1, 60) IN [w |-> w, acc |-> d.res = "accept", val |-> d.val] : w \in Strs}
       \* FIRST read off the declarative language: first terminals of derivable strings, "eps" if the empty string is derivable.
